@@ -34,7 +34,7 @@ PURE_METHODS = {
     "mean", "quantile", "window", "equivalent", "sample", "reset", "min", "max", "sum", "std", "tolist", "flatten",
     "squeeze", "clip", "all", "any", "filled", "startswith", "endswith", "join", "at", "set", "add", "to_generation",
     "to_window", "to_graph", "push", "apply_delay", "get_alpha", "from_outputs", "create", "index", "count", "nodes",
-    "sample_pure", "transpose", "block_until_ready",
+    "sample_pure", "transpose", "block_until_ready", "var", "prod", "argmax", "argmin",
 }
 TRANSPARENT_CASTS = {
     "float", "round", "jax.numpy.array", "jax.numpy.asarray", "numpy.array", "numpy.asarray", "jax.numpy.int32",
@@ -258,9 +258,21 @@ class SymEval:
 
     # ------------------------------------------------------------------ statements
     def exec_block(self, stmts: Sequence[ast.stmt], frame: Frame):
-        for st in stmts:
+        skip = False
+        for i, st in enumerate(stmts):
+            if skip:
+                skip = False
+                continue
             if self.live == T.FALSE:
                 break
+            if isinstance(st, ast.For) and i + 1 < len(stmts):
+                q = _search_loop(st, stmts[i + 1])
+                if q is not None:
+                    # for x in xs: if c(x): return True      is   return any(c(x) for x in xs)   (and the dual with all)
+                    # return False
+                    self.exec_stmt(q, frame)
+                    skip = True
+                    continue
             self.exec_stmt(st, frame)
 
     def exec_stmt(self, st: ast.stmt, frame: Frame):
@@ -589,7 +601,7 @@ class SymEval:
         if self._flag_loop(st, frame):
             return
         it = self.eval(st.iter, frame)
-        if it[0] in ("tuple", "list") and len(it[1]) <= 8 and not any(x[0] == "star" for x in it[1]) and not st.orelse \
+        if it[0] in ("tuple", "list") and len(it[1]) <= 16 and not any(x[0] == "star" for x in it[1]) and not st.orelse \
                 and not any(isinstance(n, (ast.Break, ast.Continue)) for n in ast.walk(st)):
             # a loop over a short literal sequence is its unrolling (a table walked in order)
             for x in it[1]:
@@ -599,6 +611,15 @@ class SymEval:
         fuse = _fuse_source(it)
         if fuse is not None:
             self._loop("for", st, frame, fuse[0], st.target, proj=("fuse",) + fuse[1:])
+            return
+        if it[0] == "call" and T.call_name(it) in ("filter", "itertools.filterfalse") and len(it[2]) == 2 and not it[3] and it[2][0] != T.NONE:
+            # for x in filter(p, xs) / itertools.filterfalse(p, xs): the loop over xs whose body runs under p(x) / not p(x)
+            ph = T.sym("__filter_elem__")
+            pred = self.as_bool(self.call(it[2][0], [ph], [], st.iter, frame))
+            cond = pred if T.call_name(it) == "filter" else T.mk_not(pred)
+            src, proj = canon_iter(it[2][1])
+            tmpl = ph if proj is None else T.mk_index(ph, T.const(proj))
+            self._loop("for", st, frame, src, st.target, proj=("fuse", tmpl, ph, (cond,)))
             return
         it, proj = canon_iter(it)
         self._loop("for", st, frame, it, st.target, proj=proj)
@@ -622,11 +643,25 @@ class SymEval:
         names, attrs = self._assigned_names(st.body)
         env0 = dict(frame.env)
         heap0 = dict(self.heap)
+        nret0 = len(frame.returns)
         self.exec_block(st.body, frame)
+        nret1 = len(frame.returns)
         if st.orelse:
             self.exec_block(st.orelse, frame)
         env_body, heap_body, live_body = frame.env, self.heap, self.live
         outs = [(T.TRUE, env_body, heap_body, live_body)]
+        if st.handlers and nret1 > nret0:
+            # a `return` inside the try body is reached only if no handled exception occurred there: its value must not shadow
+            # what a handler returns (try: return f(x) / except E: return g(x))
+            hn = []
+            for h in st.handlers:
+                hname = _dotted(h.type) if h.type is not None else "BaseException"
+                if h.type is not None and isinstance(h.type, ast.Tuple):
+                    hname = "|".join(_dotted(e) or "?" for e in h.type.elts)
+                hn.append(T.mk_not(T.sym(f"exc{tid}:{hname}")))
+            for i in range(nret0, nret1):
+                g, v = frame.returns[i]
+                frame.returns[i] = (T.mk_and([g] + hn), v)
         for h in st.handlers:
             hname = _dotted(h.type) if h.type is not None else "BaseException"
             if h.type is not None and isinstance(h.type, ast.Tuple):
@@ -715,13 +750,35 @@ class SymEval:
                         and st.targets[0].id == name:
                     if isinstance(st.value, ast.Constant):
                         return T.const(st.value.value)
+                    simple = lambda v: isinstance(v, (ast.Name, ast.Attribute, ast.Constant)) or (
+                        isinstance(v, ast.UnaryOp) and isinstance(v.op, ast.USub) and isinstance(v.operand, ast.Constant))
                     if isinstance(st.value, ast.Dict) and st.value.keys and all(isinstance(k, ast.Constant) for k in st.value.keys) \
-                            and all(isinstance(v, (ast.Name, ast.Attribute)) for v in st.value.values) and _never_mutated(mi.tree, name):
+                            and all(simple(v) for v in st.value.values) and _never_mutated(mi.tree, name):
                         # a module-level table of named functions / constants (never written again): known contents
                         mf = Frame(f"{frame.module}.<module>", frame.module, None, {})
                         return ("dict", tuple((T.const(k.value), self.eval(v, mf)) for k, v in zip(st.value.keys, st.value.values)))
+                    if isinstance(st.value, ast.Call) and isinstance(st.value.func, ast.Name) and st.value.func.id == "dict" and not st.value.args and st.value.keywords \
+                            and all(k.arg and simple(k.value) for k in st.value.keywords) and _never_mutated(mi.tree, name):
+                        mf = Frame(f"{frame.module}.<module>", frame.module, None, {})
+                        return ("dict", tuple((T.const(k.arg), self.eval(k.value, mf)) for k in st.value.keywords))
+                    if isinstance(st.value, (ast.Tuple, ast.List)) and st.value.elts and len(st.value.elts) <= 16 and all(simple(v) for v in st.value.elts) \
+                            and _never_mutated(mi.tree, name):
+                        # ... likewise a module-level tuple / list of names or constants (a set of states, a list of field names)
+                        mf = Frame(f"{frame.module}.<module>", frame.module, None, {})
+                        return ("tuple" if isinstance(st.value, ast.Tuple) else "list", tuple(self.eval(v, mf) for v in st.value.elts))
                     return T.sym(f"rex.{frame.module}.{name}")
         return T.sym(name)  # builtin or unknown global
+
+    def _class_constant(self, ci, name: str, frame: Frame) -> Optional[Term]:
+        """A class-level tuple / list of constants (e.g. the names of the queues) that no method ever assigns to."""
+        for st in ci.node.body:
+            if isinstance(st, ast.Assign) and len(st.targets) == 1 and isinstance(st.targets[0], ast.Name) and st.targets[0].id == name \
+                    and isinstance(st.value, (ast.Tuple, ast.List)) and st.value.elts and all(isinstance(v, ast.Constant) for v in st.value.elts):
+                for n in ast.walk(ci.node):
+                    if isinstance(n, ast.Attribute) and n.attr == name and isinstance(n.ctx, (ast.Store, ast.Del)):
+                        return None
+                return ("tuple" if isinstance(st.value, ast.Tuple) else "list", tuple(T.const(v.value) for v in st.value.elts))
+        return None
 
     # attributes another thread may write while this function runs: *when* they are read matters, so each read is an event
     VOLATILE = ("_must_reset",)
@@ -730,6 +787,10 @@ class SymEval:
         base = self.eval(e.value, frame)
         if e.attr in self.VOLATILE and isinstance(e.ctx, ast.Load):
             self.emit("read", T.show(T.mk_attr(base, e.attr)), T.mk_attr(base, e.attr), e, frame)
+        if base in (T.sym("self"), T.sym("cls")) and frame.cls is not None and (base, e.attr) not in self.heap:
+            cc = self._class_constant(frame.cls, e.attr, frame)
+            if cc is not None:
+                return cc
         if (base, e.attr) in self.heap:
             return self.heap[(base, e.attr)]
         # in-repo property on a typed receiver
@@ -745,6 +806,23 @@ class SymEval:
         return ("tuple", tuple(self.eval_star(x, frame) for x in e.elts))
 
     def ex_List(self, e, frame):
+        if any(isinstance(x, ast.Starred) for x in e.elts) and len(e.elts) <= 6:
+            # [a, *xs, b] is [a] + xs + [b]: one normal form for the two spellings of a concatenation
+            parts, cur = [], []
+            for x in e.elts:
+                if isinstance(x, ast.Starred):
+                    if cur:
+                        parts.append(("list", tuple(cur)))
+                        cur = []
+                    parts.append(self.eval(x.value, frame))
+                else:
+                    cur.append(self.eval(x, frame))
+            if cur:
+                parts.append(("list", tuple(cur)))
+            out = parts[0]
+            for p_ in parts[1:]:
+                out = self.binop(ast.Add(), out, p_, e)
+            return out
         return ("list", tuple(self.eval_star(x, frame) for x in e.elts))
 
     def ex_Set(self, e, frame):
@@ -929,6 +1007,12 @@ class SymEval:
         keys = [k for k, _ in base[1]]
         if len(set(keys)) != len(keys) or key in keys or not all(k[0] in ("sym", "const") for k in keys):
             return None
+        if set(keys) == {T.TRUE, T.FALSE} and key[0] != "const":
+            # a two-entry table keyed by a truth value: {True: a, False: b}[bool(c)] is a if c else b
+            kb = self.as_bool(key)
+            conds = [kb if k == T.TRUE else T.mk_not(kb) for k in keys]
+            out = dict(base[1])
+            return T.mk_ite(kb, out[T.TRUE], out[T.FALSE])
         conds = [T.eq(key, k, numeric=False) for k in keys]
         if default is None:
             # the fall-through is recorded as a raise (rules that ask "does anything else raise" see it); like other implicit
@@ -1104,6 +1188,8 @@ class SymEval:
             return True
         if f[0] == "sym" and f[1] in _OPERATOR_FUNCS:
             return True
+        if f[0] == "sym" and f[1].startswith("rex.") and f[1][4:] in self.model.functions:
+            return True
         return False
 
     def fname(self, fterm: Term) -> str:
@@ -1153,6 +1239,70 @@ class SymEval:
             for k in ("__fold_fn", "__fold_it", "__fold_x"):
                 frame.env.pop(k, None)
             return out
+        if method == "format" and recv is not None and recv[0] == "const" and isinstance(recv[1], str) and not kwargs \
+                and "{" in recv[1] and recv[1].replace("{}", "").count("{") == 0 and recv[1].count("{}") == len(args) and not any(a[0] == "star" for a in args):
+            # "{}_{}".format(a, b) is f"{a}_{b}"
+            parts, lits = [], recv[1].split("{}")
+            for i, lit in enumerate(lits):
+                if lit:
+                    parts.append(T.const(lit))
+                if i < len(args):
+                    parts.append(args[i])
+            return T.mk_call("fstr", parts)
+        # pytree utilities: one spelling.  tree_leaves(x) is tree_flatten(x)[0], tree_structure(x) is tree_flatten(x)[1],
+        # treedef.unflatten(xs) is tree_unflatten(treedef, xs), <treedef>.num_leaves is len(tree_flatten(x)[0]), and unflattening the
+        # leaves of x mapped one by one through f is tree_map(f, x)
+        if name in ("jax.tree_util.tree_leaves", "jax.tree_util.tree_structure") and len(args) == 1:
+            return T.mk_index(T.mk_call("jax.tree_util.tree_flatten", [args[0]], kwargs), T.ZERO if name.endswith("leaves") else T.ONE)
+        if method == "unflatten" and recv is not None and len(args) == 1 and not kwargs and recv[0] == "index" and recv[1][0] == "call" \
+                and T.call_name(recv[1]) == "jax.tree_util.tree_flatten":
+            return self.call(T.sym("jax.tree_util.tree_unflatten"), [recv, args[0]], [], node, frame)
+        if name == "jax.tree_util.tree_unflatten" and len(args) == 2 and not kwargs and args[1][0] == "comp" and args[1][1] == "list" and not args[1][4] and len(args[1][3]) == 1:
+            src = args[1][3][0][1]
+            if src[0] == "index" and src[2] == T.ZERO and src[1][0] == "call" and T.call_name(src[1]) == "jax.tree_util.tree_flatten" and not src[1][3] \
+                    and args[0] == T.mk_index(src[1], T.ONE):
+                el = [x for x in T.walk(args[1][2]) if x[0] == "elem" and x[1] == src]
+                if len(set(el)) == 1:
+                    return T.subst(args[1][2], {el[0]: src[1][2][0]})  # leaf-wise reading, as for tree_map
+        if name in ("numpy.full", "jax.numpy.full") and len(args) >= 2 and T.const_value(args[1]) is not None and all(k == "dtype" for k, _ in kwargs) and len(args) <= 3:
+            # full(shape, c) is c * ones(shape) (the dtype is a cast, transparent like astype)
+            return T.mul(args[1], self.call(T.sym(name.rsplit(".", 1)[0] + ".ones"), [args[0]], [], node, frame))
+        if name in _REDUCTIONS and args and args[0][0] not in ("list", "tuple", "star") and not (args[0][0] == "call" and args[0][1] == "+"):
+            # jnp.max(x, axis=1) / onp.amax(x, axis=1) is x.max(axis=1): one normal form for reductions of an array
+            m = _REDUCTIONS[name]
+            return self.call(T.mk_attr(args[0], m) if args[0][0] == "sym" else ("attr", args[0], m), list(args[1:]), kwargs, node, frame, recv=args[0], method=m)
+        if name in ("operator.itemgetter", "operator.attrgetter") and len(args) == 1 and not kwargs and (name.endswith("itemgetter") or args[0][0] == "const"):
+            # operator.itemgetter(k) is lambda x: x[k]; operator.attrgetter("a") is lambda x: x.a
+            src = "lambda __x: __x[__k]" if name.endswith("itemgetter") else f"lambda __x: __x.{args[0][1]}"
+            lam = ast.parse(src, mode="eval").body
+            for n in ast.walk(lam):
+                if hasattr(n, "lineno") and node is not None:
+                    ast.copy_location(n, node)
+            u = self.uid()
+            self.closures[u] = Closure(u, "lambda", lam, Frame(frame.func, frame.module, frame.cls, {"__k": args[0]}, parent=frame), qualname=f"{frame.func}.<lambda>")
+            return ("closure", u)
+        if method == "update" and recv is not None and len(args) == 1 and not kwargs and args[0][0] == "dict" and args[0][1] \
+                and isinstance(node, ast.Call) and isinstance(node.func, ast.Attribute) and isinstance(node.func.value, ast.Name) \
+                and all(k[0] == "const" for k, _ in args[0][1]):
+            # d.update({"a": x, "b": y}) is d["a"] = x; d["b"] = y
+            nm = node.func.value.id
+            for k, v in args[0][1]:
+                self.emit("store_sub", T.show(recv) if recv[0] == "sym" else nm, v, node, frame, recv=recv, key=k)
+            cur = frame.lookup(nm)
+            if cur is not None and cur[0] == "dict":
+                items = [(k, x) for k, x in cur[1] if k not in dict(args[0][1])] + list(args[0][1])
+                f_ = frame
+                while f_ is not None and nm not in f_.env:
+                    f_ = f_.parent
+                (f_ or frame).env[nm] = ("dict", tuple(items))
+            return T.NONE
+        if name == "setattr" and len(args) == 3 and not kwargs and args[1][0] == "const" and isinstance(args[1][1], str) and args[1][1].isidentifier() \
+                and isinstance(node, ast.Call) and len(node.args) == 3:
+            # setattr(x, "a", v) is x.a = v
+            tgt = ast.Attribute(value=node.args[0], attr=args[1][1], ctx=ast.Store())
+            ast.copy_location(tgt, node)
+            self.assign(tgt, args[2], frame, node)
+            return T.NONE
         if name == "getattr" and len(args) == 2 and not kwargs and args[1][0] == "const" and isinstance(args[1][1], str) and args[1][1].isidentifier():
             return T.mk_attr(args[0], args[1][1])  # getattr(x, "a") is x.a
         if name in ("all", "any") and len(args) == 1 and not kwargs and args[0][0] == "comp" and args[0][1] in ("list", "gen") and len(args[0][3]) == 1:
@@ -1478,9 +1628,10 @@ class SymEval:
                     return self.call(fn, leaves, [], node, frame, recv=fn[1], method=fn[2])
                 return self.call(fn, leaves, [], node, frame)
             trees = list(args[1:])
-            if all(t[0] == "list" for t in trees) and len({len(t[1]) for t in trees}) == 1 and not any(
-                    x[0] == "star" for t in trees for x in t[1]):
-                return ("list", tuple(apply([t[1][i] for t in trees]) for i in range(len(trees[0][1]))))
+            for kind in ("list", "tuple"):
+                # a literal list / tuple of trees is mapped component by component (same structure in every argument)
+                if all(t[0] == kind for t in trees) and len({len(t[1]) for t in trees}) == 1 and not any(x[0] == "star" for t in trees for x in t[1]):
+                    return (kind, tuple(apply([t[1][i] for t in trees]) for i in range(len(trees[0][1]))))
             return apply(trees)
         if name == "functools.partial" and len(args) >= 1:
             u = self.uid()
@@ -1614,9 +1765,31 @@ def merge_returns(returns: List[Tuple[Term, Term]]) -> Term:
     return r
 
 
+_REDUCTIONS = {f"{mod}.{f}": {"amax": "max", "amin": "min"}.get(f, f) for mod in ("jax.numpy", "numpy")
+               for f in ("max", "min", "amax", "amin", "sum", "mean", "std", "var", "prod", "argmax", "argmin")}
 _OPERATOR_FUNCS = {"operator.gt": ast.Gt, "operator.ge": ast.GtE, "operator.lt": ast.Lt, "operator.le": ast.LtE, "operator.eq": ast.Eq,
                    "operator.ne": ast.NotEq, "operator.add": ast.Add, "operator.sub": ast.Sub, "operator.mul": ast.Mult,
                    "operator.truediv": ast.Div, "operator.is_": ast.Is, "operator.is_not": ast.IsNot}
+
+
+def _search_loop(loop: ast.For, after: ast.stmt):
+    """The `return any(...)` / `return all(...)` statement a search loop with early return abbreviates, or None."""
+    if loop.orelse or len(loop.body) != 1 or not isinstance(loop.body[0], ast.If) or loop.body[0].orelse or len(loop.body[0].body) != 1:
+        return None
+    r_in = loop.body[0].body[0]
+    if not (isinstance(r_in, ast.Return) and isinstance(r_in.value, ast.Constant) and isinstance(r_in.value.value, bool)
+            and isinstance(after, ast.Return) and isinstance(after.value, ast.Constant) and after.value.value is (not r_in.value.value)):
+        return None
+    test = loop.body[0].test
+    if any(isinstance(n, (ast.Call, ast.NamedExpr, ast.Await)) and not (isinstance(n, ast.Call) and isinstance(n.func, ast.Name) and n.func.id in ("len", "isinstance", "bool"))
+           for n in ast.walk(test)):
+        return None
+    elt = test if r_in.value.value else ast.UnaryOp(op=ast.Not(), operand=test)
+    comp = ast.ListComp(elt=elt, generators=[ast.comprehension(target=loop.target, iter=loop.iter, ifs=[], is_async=0)])
+    ret = ast.Return(value=ast.Call(func=ast.Name(id="any" if r_in.value.value else "all", ctx=ast.Load()), args=[comp], keywords=[]))
+    ast.copy_location(ret, loop)
+    ast.fix_missing_locations(ret)
+    return ret
 
 
 def _never_mutated(tree: ast.Module, name: str) -> bool:
@@ -1628,7 +1801,7 @@ def _never_mutated(tree: ast.Module, name: str) -> bool:
         if isinstance(n, ast.Subscript) and isinstance(n.ctx, (ast.Store, ast.Del)) and isinstance(n.value, ast.Name) and n.value.id == name:
             return False
         if isinstance(n, ast.Call) and isinstance(n.func, ast.Attribute) and isinstance(n.func.value, ast.Name) and n.func.value.id == name \
-                and n.func.attr in ("update", "pop", "popitem", "clear", "setdefault", "__setitem__", "__delitem__"):
+                and n.func.attr in ("update", "pop", "popitem", "clear", "setdefault", "__setitem__", "__delitem__", "append", "extend", "insert", "remove", "sort", "reverse"):
             return False
         if isinstance(n, ast.Global) and name in n.names:
             return False
